@@ -82,6 +82,26 @@ func mkArch(a []string, i int) dependency.Arch {
 
 func init() {
 	ops["dparse"] = func(a []string) string { return showDres(dependency.Parse(arg(a, 0))) }
+	// dunmarshalerr text: a receiver that holds the parse of "keep (>= 1)" is handed a field through UnmarshalControl; when that
+	// fails, what does the receiver hold next to the error?  "err <receiver>"; "ok" when the field parses
+	ops["dunmarshalerr"] = func(a []string) string {
+		var u dependency.Dependency
+		if err := u.UnmarshalControl("keep (>= 1)"); err != nil {
+			return "harness-error"
+		}
+		before := showDep(&u)
+		if err := u.UnmarshalControl(arg(a, 0)); err != nil {
+			switch after := showDep(&u); {
+			case after == before:
+				return "err unchanged"
+			case len(u.Relations) == 0:
+				return "err empty"
+			default:
+				return "err holds " + after
+			}
+		}
+		return "ok"
+	}
 	// dtwice text: Parse, Parse again, then UnmarshalControl - three answers for one text in one process
 	ops["dtwice"] = func(a []string) string {
 		one := func() string {
@@ -244,6 +264,10 @@ func init() {
 	ops["aparse"] = func(a []string) string {
 		x, err := dependency.ParseArch(arg(a, 0))
 		if err != nil {
+			if x != nil {
+				// a value next to the error (once: the any-any-any wildcard, which matches every architecture)
+				return "err-with-value"
+			}
 			return "err"
 		}
 		return showArch(*x)
